@@ -81,8 +81,11 @@ func report(c *hc.Ctx, prop string, outs []Outcome, expectBgOf bool) error {
 			c.Count("run.with-transfer")
 		}
 		c.Eval(in, nontrivial)
-		if o.HasXfer || o.Hung {
-			continue // a pre-fix transfer step or a hang has no model counterpart
+		if o.NoModel {
+			c.Count("run.lock-yield")
+		}
+		if o.HasXfer || o.Hung || o.NoModel {
+			continue // a pre-fix transfer step, a hang or a run with pauses inside the pool mutex has no model counterpart
 		}
 		lines = append(lines, o.Line())
 		cfgsOf = append(cfgsOf, o.Cfg)
@@ -90,8 +93,8 @@ func report(c *hc.Ctx, prop string, outs []Outcome, expectBgOf bool) error {
 		inputs = append(inputs, in+" | "+o.Line())
 		wants = append(wants, o.Want())
 	}
-	c.Res.Rule = "a case is one scheduled run of a real pool.DC (max 0=unlimited,1..3; 1..5 concurrent DC.Invoke callers; fake connections whose readiness and death the scheduler controls; caller cancellation; Invoke results ok / error / retryable error); the scheduler serialises all goroutines at the verif scheduling points and picks the next action from the seeded generator (weights vary per run); non-trivial = the run contains a transfer to a waiter, a connection death or a cancellation; distinct = distinct schedule"
-	c.PartialNote("interleavings below the granularity of the scheduling points (inside a mutex critical section, Go memory model) are not exhibited; when several branches of a select are ready the Go runtime picks, the observed branch is what is replayed")
+	c.Res.Rule = "a case is one scheduled run of a real pool.DC (max 0=unlimited,1..3; 1..5 concurrent DC.Invoke callers; fake connections whose readiness and death the scheduler controls; caller cancellation; Invoke results ok / error / retryable error); the scheduler serialises all goroutines at the verif scheduling points and picks the next action from the seeded generator (weights vary per run); in the lock-yield runs a goroutine is additionally paused INSIDE a critical section of the pool mutex (at the pool's own debug lines) while others run up to the mutex, which exhibits check-then-lock windows (monitor only, no model trace); non-trivial = the run contains a transfer to a waiter, a connection death or a cancellation; distinct = distinct schedule"
+	c.PartialNote("interleavings below the granularity of the scheduling points are exhibited only in the lock-yield runs (a goroutine parked at one of the pool's own debug lines inside the mutex while others run up to the mutex), otherwise not (Go memory model); when several branches of a select are ready the Go runtime picks, the observed branch is what is replayed")
 	ans, err := c.Drv.Batch(lines)
 	if err != nil {
 		return err
@@ -107,7 +110,7 @@ func report(c *hc.Ctx, prop string, outs []Outcome, expectBgOf bool) error {
 		for try := 0; try < 2 && !agreed; try++ {
 			div := false
 			o2 := Execute(cfgsOf[i], expectBgOf, ScriptChooser(schedOf[i], &div))
-			if o2.HasXfer || o2.Hung {
+			if o2.HasXfer || o2.Hung || o2.NoModel {
 				continue
 			}
 			a2, err := c.Drv.Ask(o2.Line())
